@@ -739,6 +739,45 @@ func (c *Ctx) checkNexusKeywords() {
 			}
 		}
 	})
+	// the same selection read from branch facts: the value that reaches the φ on an edge where
+	// `alphabet == AMINOACIDS` is known true is the amino value, the other one the default (also
+	// when the selection is a switch in a private helper, seen in the inlined view)
+	if tab[amino] != "AMINOACIDS" || tab[dflt] != "NUCLEOTIDS" {
+		aminoK := int64(-1)
+		if k := constByName(c.P.Pkg("align"), "AMINOACIDS"); k != nil {
+			if v, ok := cInt(k); ok {
+				aminoK = v
+			}
+		}
+		bf := computeBranchFacts(w.F)
+		var cmps []*ssa.BinOp
+		allInstrs(w.F, func(in ssa.Instruction) {
+			if bo, ok := in.(*ssa.BinOp); ok && bo.Op == token.EQL {
+				if k, ok := constInt(bo.Y); ok && k == aminoK {
+					cmps = append(cmps, bo)
+				}
+			}
+		})
+		allInstrs(w.F, func(in ssa.Instruction) {
+			p, ok := in.(*ssa.Phi)
+			if !ok || len(p.Edges) != 2 {
+				return
+			}
+			s0, ok0 := cStr(constOf(p.Edges[0]))
+			s1, ok1 := cStr(constOf(p.Edges[1]))
+			if !ok0 || !ok1 {
+				return
+			}
+			for i, sv := range []string{s0, s1} {
+				for _, cm := range cmps {
+					if bf.knownOnEdge(p.Block().Preds[i], p.Block(), cm, true) {
+						amino = sv
+						dflt = []string{s1, s0}[i]
+					}
+				}
+			}
+		})
+	}
 	okDT = tab[amino] == "AMINOACIDS" && tab[dflt] == "NUCLEOTIDS"
 	det = fmt.Sprintf("amino acids written as %q → %s, otherwise %q → %s", amino, tab[amino], dflt, tab[dflt])
 	L.Check(okDT, "nexus-keywords", w.label, "datatype maps back to the alphabet", c.P.Pos(w.F.Pos()), det, "the data type written does not map back to the alignment's alphabet: "+det)
